@@ -1014,7 +1014,10 @@ class Visitor(ast.NodeVisitor):
         return generator_expr_func(**self._name_to_value)
 
     def _harvest_comprehension(
-        self, elts: List[ast.expr], generators: List[ast.comprehension]
+        self,
+        elts: List[ast.expr],
+        generators: List[ast.comprehension],
+        enclosing_name_to_value: Dict[str, Any],
     ) -> None:
         """
         Visit the parts of a comprehension to collect the values which are unrelated to its targets.
@@ -1022,10 +1025,23 @@ class Visitor(ast.NodeVisitor):
         Python might never evaluate these sub-expressions (*e.g.*, when nothing is iterated over or
         when a filter is false), so a failure to re-compute one of them must not prevent us from
         reporting the violation.
+
+        The iterable of the first ``for`` is evaluated by Python in the enclosing scope, where the targets
+        of the comprehension are not bound, so it is visited with ``enclosing_name_to_value``.
         """
+        name_to_value_with_targets = self._name_to_value
+        self._name_to_value = copy.copy(enclosing_name_to_value)
+        try:
+            self.visit(generators[0].iter)
+        except Exception:  # pylint: disable=broad-except
+            pass
+        finally:
+            self._name_to_value = name_to_value_with_targets
+
         nodes = list(elts)  # type: List[ast.expr]
-        for generator in generators:
-            nodes.append(generator.iter)
+        for i, generator in enumerate(generators):
+            if i > 0:
+                nodes.append(generator.iter)
             nodes.extend(generator.ifs)
 
         for node in nodes:
@@ -1066,7 +1082,11 @@ class Visitor(ast.NodeVisitor):
         ):
             self._name_to_value[target_name] = PLACEHOLDER
 
-        self._harvest_comprehension(elts=[node.elt], generators=node.generators)
+        self._harvest_comprehension(
+            elts=[node.elt],
+            generators=node.generators,
+            enclosing_name_to_value=old_name_to_value,
+        )
 
         self._name_to_value = old_name_to_value
 
@@ -1087,7 +1107,11 @@ class Visitor(ast.NodeVisitor):
         ):
             self._name_to_value[target_name] = PLACEHOLDER
 
-        self._harvest_comprehension(elts=[node.elt], generators=node.generators)
+        self._harvest_comprehension(
+            elts=[node.elt],
+            generators=node.generators,
+            enclosing_name_to_value=old_name_to_value,
+        )
 
         self._name_to_value = old_name_to_value
 
@@ -1110,7 +1134,11 @@ class Visitor(ast.NodeVisitor):
         ):
             self._name_to_value[target_name] = PLACEHOLDER
 
-        self._harvest_comprehension(elts=[node.elt], generators=node.generators)
+        self._harvest_comprehension(
+            elts=[node.elt],
+            generators=node.generators,
+            enclosing_name_to_value=old_name_to_value,
+        )
 
         self._name_to_value = old_name_to_value
 
@@ -1134,7 +1162,9 @@ class Visitor(ast.NodeVisitor):
             self._name_to_value[target_name] = PLACEHOLDER
 
         self._harvest_comprehension(
-            elts=[node.key, node.value], generators=node.generators
+            elts=[node.key, node.value],
+            generators=node.generators,
+            enclosing_name_to_value=old_name_to_value,
         )
 
         self._name_to_value = old_name_to_value
